@@ -333,7 +333,7 @@ func (h *Handler) proxy(down *layer4.Connection, upConns []net.Conn) {
 
 	// Shut down the writing side of the downstream connection, in case that
 	// the upstream connections are all half closed.
-	if downConn, ok := down.Conn.(closeWriter); ok {
+	if downConn, ok := halfCloser(down.Conn); ok {
 		_ = downConn.CloseWrite()
 	}
 
@@ -643,6 +643,30 @@ var (
 
 // Used to properly shutdown half-closed connections (see PR #73).
 // Implemented by net.TCPConn, net.UnixConn, tls.Conn, qtls.Conn.
+// halfCloser returns the connection whose write side can be shut down on
+// behalf of c: c itself, or a connection it wraps. Handlers such as throttle,
+// tee and proxy_protocol put wrappers without a CloseWrite method in front of
+// the socket; without looking through them the client would never observe
+// end-of-stream when the upstreams have finished sending.
+func halfCloser(c net.Conn) (closeWriter, bool) {
+	for c != nil {
+		if cw, ok := c.(closeWriter); ok {
+			return cw, true
+		}
+		switch w := c.(type) {
+		case *layer4.Connection:
+			c = w.Conn
+		case *proxyprotocol.Conn:
+			c = w.Conn
+		case interface{ NetConn() net.Conn }:
+			c = w.NetConn()
+		default:
+			return nil, false
+		}
+	}
+	return nil, false
+}
+
 type closeWriter interface {
 	// CloseWrite shuts down the writing side of the connection.
 	CloseWrite() error
